@@ -212,7 +212,7 @@ fn sum_strategy(max_len: usize) -> BoxedStrategy<SumCase> {
 
 pub fn run(ctx: &Ctx) {
     let t = ctx.tier;
-    let limit = t.pick(20_000u64, 200_000);
+    let limit = t.pick(20_000u64, 600_000);
     ctx.enumerated(
         "small-exhaustive",
         "prec",
@@ -226,11 +226,11 @@ pub fn run(ctx: &Ctx) {
     ctx.generated(
         "random-tails",
         "prec",
-        t.pick(200_000, 4_000_000),
+        t.pick(200_000, 10_000_000),
         "1..max digits; tie / near-tie / all-nines tails; p at the tail cut, = / -1 / +1..6 of the digit count, tiny, anywhere; scales incl. the i64 ends where the new scale stays representable; zeros; both signs",
         move || prec_strategy(max_len),
         check_prec,
     );
     ctx.generated("extreme-scales", "prec", t.pick(50_000, 500_000), "scales within 80 of i64::MIN / i64::MAX with p such that the resulting scale is representable", extreme_scale_strategy, check_prec);
-    ctx.generated("context-sums", "sum", t.pick(100_000, 2_000_000), "a + b rounded by Context::add_refs / add_refs_into: gaps 0..700, cancellations, all-nines carries, p in 1..120", move || sum_strategy(max_len.min(400)), check_sum);
+    ctx.generated("context-sums", "sum", t.pick(100_000, 5_000_000), "a + b rounded by Context::add_refs / add_refs_into: gaps 0..700, cancellations, all-nines carries, p in 1..120", move || sum_strategy(max_len.min(400)), check_sum);
 }
